@@ -134,10 +134,13 @@ def run(ctx):
     runs = [("3-D ext<=3", 3, 3, 14 if quick else 0), ("4-D ext<=2", 4, 2, 6 if quick else 120)]
     if not quick:
         runs.append(("3-D ext<=4 sampled", 3, 4, 60))
+    runs.append(("3-D ext<=3, over-decomposed grids admitted", 3, 3, 8 if quick else 80))
     cands = []
     for what, nd, ext, k in runs:
         cfg = ("INIT Init\nNEXT Next\nCONSTANTS ND = %d MaxExt = %d MaxP = 3 SampleK = %d\nINVARIANT EveryIndexOnce\n"
                "INVARIANT Dump\nCHECK_DEADLOCK FALSE\n" % (nd, ext, k))
+        if "over-decomposed" in what:
+            cfg += "CONSTANT GridFits <- AnyFits\n"
         r = ctx.tlc("SwapperBoxMC", cfg, what=what, seed=ctx.seed + 3, timeout=7200)
         if r.violated:
             raise Machinery("abstract layout model violates %s: %s" % (r.violated, r.trace_text))
@@ -155,7 +158,7 @@ def run(ctx):
     for sh in ([4, 5, 6], [5, 7, 6], [6, 6, 6], [3, 9, 4]):
         for n1 in (1, 2, 3):
             for n2 in (1, 2, 3):
-                if n1 <= min(sh[0], sh[1]) and n2 <= min(sh[2], sh[1]):
+                if (n1 <= min(sh[0], sh[1]) and n2 <= min(sh[2], sh[1])) or sh == [3, 9, 4]:       # [3,9,4]: also over-decomposed
                     cands.append({"nd": 3, "sh": sh, "np": [n1, n2], "g0": [[1, 3, 2], [2, 3, 1]], "g1": [[1, 3, 2]],
                                   "g2": [[3, 2, 1]], "driver": True})
     rng.shuffle(cands)
